@@ -544,3 +544,121 @@ func DecodeMsg(b []byte) (*Msg, *Decoder, error) {
 	}
 	return m, d, nil
 }
+
+// ---------------------------------------------------------------------------------------------
+// a compressing reference encoder (for "compressed names are accepted on input for every type")
+
+type ptrEnc struct {
+	b    []byte
+	seen map[string]int // exact (case-preserving) suffix → offset
+}
+
+func suffixKey(labels [][]byte) string {
+	var k []byte
+	for _, l := range labels {
+		k = append(k, byte(len(l)))
+		k = append(k, l...)
+	}
+	return string(k)
+}
+
+func (e *ptrEnc) name(labels [][]byte) {
+	for i := range labels {
+		k := suffixKey(labels[i:])
+		if off, ok := e.seen[k]; ok {
+			e.b = append(e.b, 0xC0|byte(off>>8), byte(off))
+			return
+		}
+		if len(e.b) < 0x4000 {
+			e.seen[k] = len(e.b)
+		}
+		e.b = append(e.b, byte(len(labels[i])))
+		e.b = append(e.b, labels[i]...)
+	}
+	e.b = append(e.b, 0)
+}
+
+// EncodeMsgPointers encodes m compressing *every* name, including names in the RDATA of types for
+// which a sender must not do so; receivers must still accept it (RFC 3597 §4).
+func EncodeMsgPointers(m *Msg) []byte {
+	e := &ptrEnc{seen: map[string]int{}}
+	e.b = putN(e.b, uint64(m.ID), 2)
+	e.b = putN(e.b, uint64(m.Flags), 2)
+	e.b = putN(e.b, uint64(len(m.Q)), 2)
+	for i := 0; i < 3; i++ {
+		e.b = putN(e.b, uint64(len(m.Sec[i])), 2)
+	}
+	for _, q := range m.Q {
+		e.name(q.Name)
+		e.b = putN(e.b, uint64(q.Type), 2)
+		e.b = putN(e.b, uint64(q.Class), 2)
+	}
+	for i := 0; i < 3; i++ {
+		for j := range m.Sec[i] {
+			r := &m.Sec[i][j]
+			e.name(r.Name)
+			e.b = putN(e.b, uint64(r.Type), 2)
+			e.b = putN(e.b, uint64(r.Class), 2)
+			e.b = putN(e.b, uint64(r.TTL), 4)
+			lenAt := len(e.b)
+			e.b = append(e.b, 0, 0)
+			s := Specs[r.Type]
+			if s == nil || r.Generic || r.NoRdata {
+				e.b = append(e.b, r.Rdata()...)
+			} else {
+				for fi, f := range s.Fields {
+					v := r.Vals[fi]
+					switch f.K {
+					case Name, CName:
+						e.name(v.L)
+					case Names:
+						for _, n := range v.N {
+							e.name(n)
+						}
+					case Gateway:
+						if valOf(s, r.Vals, f.TypeGo).U&f.Mask == 3 {
+							e.name(v.L)
+						} else {
+							e.b = append(e.b, v.B...)
+						}
+					default:
+						e.b = append(e.b, encodeField(s, r.Vals, fi)...)
+					}
+				}
+			}
+			n := len(e.b) - lenAt - 2
+			e.b[lenAt], e.b[lenAt+1] = byte(n>>8), byte(n)
+		}
+	}
+	return e.b
+}
+
+// encodeField encodes a single non-name field.
+func encodeField(s *Spec, vals []Val, fi int) []byte {
+	return encodeRdataWith(&Spec{Type: s.Type, Fields: s.Fields[fi : fi+1]}, s, vals[fi:fi+1], vals)
+}
+
+// encodeRdataWith encodes the fields of part, resolving Len/Gateway references against the full spec.
+func encodeRdataWith(part, fullSpec *Spec, vals, fullVals []Val) []byte {
+	var b []byte
+	for i, f := range part.Fields {
+		v := vals[i]
+		switch f.K {
+		case Len8:
+			b = putN(b, uint64(lenOf(fullSpec, fullVals, f.Of)), 1)
+		case Len16:
+			b = putN(b, uint64(lenOf(fullSpec, fullVals, f.Of)), 2)
+		case Gateway:
+			switch valOf(fullSpec, fullVals, f.TypeGo).U & f.Mask {
+			case 1, 2:
+				b = append(b, v.B...)
+			case 3:
+				b = EncName(b, v.L)
+			}
+		default:
+			one := Spec{Type: part.Type, Fields: []Field{f}}
+			b = append(b, EncodeRdata(&one, []Val{v})...)
+		}
+	}
+	return b
+}
